@@ -2,6 +2,7 @@ SPECIFICATION TraceSpec
 CONSTANTS
  Recorders = {1, 2, 3}
  Drainers = {4, 5}
-INVARIANTS TypeOK Conservation RenderFaithful CounterMeaning HelpFirst RenderTwice LabelsOK
+ LockedDrain = TRUE
+INVARIANTS TypeOK Conservation RenderFaithful RenderBounds CounterMeaning HelpFirst RenderTwice LabelsOK
 POSTCONDITION TraceAccepted
 CHECK_DEADLOCK FALSE
